@@ -80,6 +80,14 @@ MC_ORACLE static void listener (void *mu, int acquired, int is_writer) {
 }
 void h_install_rwlock_listener (void) { mc_rwlock_listener = &listener; }
 
+MC_ORACLE void h_mu_idle (nsync_mu *m) {
+	uint32_t w = *(volatile uint32_t *) &m->word;
+	uint32_t bad = w & (MU_WLOCK | MU_SPINLOCK | MU_DESIG_WAKER | MU_WRITER_WAITING | MU_LONG_WAIT | MU_RLOCK_FIELD);
+	if (bad != 0) mc_fail ("every thread has finished but the mutex word is 0x%x: stale%s%s%s%s on an idle mutex (the next contended operation loses a wake-up)", w,
+		(bad & MU_DESIG_WAKER) ? " MU_DESIG_WAKER" : "", (bad & MU_WRITER_WAITING) ? " MU_WRITER_WAITING" : "", (bad & MU_LONG_WAIT) ? " MU_LONG_WAIT" : "",
+		(bad & (MU_WLOCK | MU_SPINLOCK | MU_RLOCK_FIELD)) ? " lock bits" : "");
+	else if (m->waiters != NULL) mc_fail ("every thread has finished but the mutex still has a waiter queue");
+}
 MC_ORACLE void h_outcome_results (void) {
 	int t, k;
 	for (t = 0; t < h_nthreads; t++) {
